@@ -10,13 +10,13 @@ TRUSTED = [
     "the trial vectors of the DE strategies, the Nelder-Mead candidate points, numpy.argsort's permutation and the population after (re)decoration are oracle inputs of the machine model (recorded from /repo in the correspondence; arbitrary in the theorems); their arithmetic is the subject of C08",
     "tight/clip modes of SetStrictRanges (bounds imposed through constraints.and_) are outside the machine model: covered by the oracle only",
 ]
-ASSUMPTIONS = ["no NaN energies (finite-or-infinite energies only)", "in-process map", "PowellDirectionalSolver and the ensemble solvers are covered by the oracle only, not by the machine model"]
+ASSUMPTIONS = ["no NaN energies (finite-or-infinite energies only)", "in-process map", "the ensemble solvers are covered by the oracle only, not by the machine model (their own model is C09's); Powell's line searches are oracle inputs"]
 
 
 def make_generate(**kw):
     def generate(rng, n, tier):
         for _ in range(n):
-            # Powell is outside the machine model: one script in six runs it for the oracle
+            # one script in six runs Powell
             solvers = ("POW",) if rng.random() < 0.17 else L.SOLVERS
             yield G.gen_script(rng, solvers=solvers, **kw)
     return generate
